@@ -137,6 +137,9 @@ def declare(spec):
             return ListV(TypeS, prelude.subs_len(t), [prelude.subs_arr(t)])
         return Builtin('__subclasses__', fn)
     Tk.attr_hooks['__subclasses__'] = subclasses
+    # a class-level attribute read through the class object (Processor.priority)
+    Tk.attr_hooks['priority'] = lambda X, obj, node: ZV(
+        z3.Function('class_priority', TypeS.sort, z3.IntSort())(obj.t))
 
     spec.hasattr_hooks[('Comp', '__events__')] = lambda X, v: ZV(T.has_events(prelude.type_of(X, v.t)))
     spec.hasattr_hooks[('Proc', '__events__')] = lambda X, v: ZV(T.has_events(prelude.type_of(X, v.t)))
